@@ -107,6 +107,20 @@ fn c12_centroid3_long(p: [Point3<R>; 8]) {
     }
     vcover("end");
 }
+// long lists (BOUND: the listed lengths up to 300, dimension 1): lengths around the block sizes a chunked / pairwise /
+// unrolled summation would use (15-17, 31-33, 63-65, 127-129, 255-257) and a few others
+fn c12_centroid1_big(p: [Point1<R>; 300]) {
+    let ns: [usize; 22] = [9, 10, 15, 16, 17, 31, 32, 33, 63, 64, 65, 100, 127, 128, 129, 200, 255, 256, 257, 258, 299, 300];
+    let mut j = 0;
+    while j < 22 {
+        let n = ns[j];
+        let mut sx = R(0.0);
+        let mut i = 0; while i < n { sx = sx + p[i].x; i += 1; }
+        vassert_eq("centroid n=9..300", Point1::centroid(&p[..n]), Point1::new(sx / R(n as f64)));
+        j += 1;
+    }
+    vcover("end");
+}
 fn c12_centroid2_long(p: [Point2<R>; 7]) {
     let mut n = 5;
     while n <= 7 {
